@@ -44,7 +44,7 @@ def annotate(case, impl_lines):
         l = impl_lines[n] if n < len(impl_lines) else ""
         fs = op.split()
         toks = l.split()
-        if fs[0] in ("clear", "close") and toks[:1] == ["blocked"]:
+        if fs[0] in ("clear", "close", "closeset") and toks[:1] == ["blocked"]:
             pending.add(str(n))
         done = {t[5:] for t in toks if t.startswith("done:")}
         if fs[0] == "tok" and pending and not (pending & done):
